@@ -55,10 +55,10 @@ def _analyses():
     thread = lambda c, w: kt.global_effects(c, w, thread=True)
     return {
         "C01": (
-            [a3.vjp, a3.helpers, a3_reduce.reductions, km.squeeze_axes, a16_perm.permutations_rule, a16_perm.norm_rolls, a17_labels.contraction_adjoints, vjp_axis, a2.catchall, a2.variadic, a1.arity, ka.option_domains, a5_factor.agree, ka.arraybox_table],
+            [a3.vjp, a3.helpers, a3_reduce.reductions, km.squeeze_axes, a16_perm.permutations_rule, a16_perm.norm_rolls, a17_labels.contraction_adjoints, vjp_axis, a2.catchall, a2.variadic, a2.argnums_rules, a1.arity, ka.option_domains, a5_factor.agree, ka.arraybox_table],
             "Reverse-mode exactness is numerical; decided here are the configuration-dependent plumbing clauses every exact rule needs: "
             "broadcast discipline of VJPs (A3.vjp), negative-axis hazards (A7), keyword/positional binding behind catch-alls (A2.catchall), "
-            "variadic offsets (A2.variadic), arity (A1.arity), closed option domains (A6.enum), VJP/JVP factor agreement of elementwise rules (A5) "
+            "variadic offsets (A2.variadic), whole-argnums rules map element-wise (A2.argnums), arity (A1.arity), closed option domains (A6.enum), VJP/JVP factor agreement of elementwise rules (A5) "
             "and the operator/method call forms (A14). Each is a necessary condition: breaking one makes some call configuration silently wrong.",
         ),
         "C02": (
@@ -114,8 +114,8 @@ def _analyses():
             "indices accumulate (A9.scatter), __getitem__/untake pairing on the same index and the argument's space (A2.repo), both sparse object types registered (A1.types), 'same' JVPs (A1.lin).",
         ),
         "C12": (
-            [a2.layout, a2.variadic, _dict_keys, ka.container_boxes, km.container_vspaces, _container_spaces, _flatten_order],
-            "Containers: offset arithmetic of sequence_extend / make_sequence (A2.layout, A2.variadic), content accessors of SequenceBox/DictBox go through the primitive (A14.containers), "
+            [a2.layout, a2.variadic, a2.argnums_rules, _dict_keys, ka.container_boxes, km.container_vspaces, _container_spaces, _flatten_order],
+            "Containers: offset arithmetic of sequence_extend / make_sequence (A2.layout, A2.variadic, A2.argnums), content accessors of SequenceBox/DictBox go through the primitive (A14.containers), "
             "every registered container space resolves its abstract members, flatten destructures make_vjp as (unflatten, flat) and visits dict keys in sorted order.",
         ),
         "C13": (
@@ -140,9 +140,9 @@ def _analyses():
             "primal/aux untouched, jacobian = output shape + input shape over the output basis, deriv element [1], holomorphic_grad, hessian, make_hvp, checkpoint, grad_named.",
         ),
         "C17": (
-            [kc.dispatch, kc.raise_discipline, kc.zero_paths, kt.wrapper, ka.operators],
+            [kc.dispatch, kc.raise_discipline, kc.zero_paths, kt.wrapper, ka.operators, a2.argnums_rules],
             "Extension contract: the three defvjp branches are specialisations of one mapping (A13.align), missing rules raise (A6.raise), None -> zeros of the right argument (A13.zero), "
-            "registration slots and wrapper hand-over (A2.slot), argnums= honoured, 'same'/def_linear substitute at argnum, checkpoint wiring (A15).",
+            "registration slots and wrapper hand-over (A2.slot), whole-argnums rules map element-wise (A2.argnums), argnums= honoured, 'same'/def_linear substitute at argnum, checkpoint wiring (A15).",
         ),
         "C19": (
             [kt.global_effects, kt.trace_id_uses, kt.new_trace, kc.closure_reuse, kc.backward_pass, kc.zero_paths],
